@@ -444,13 +444,13 @@ pub fn mutate(r: &mut Rng, root: &mut Node) -> &'static str {
                 n.nulls = Some(Nulls { bytes, off: n.off, len: n.len, count }); return "nulls_added" } "none" }
         15 => { // corrupt a values byte (UTF-8 boundary cases) in the last buffer
             if n.bufs.len() >= 2 { let b = n.bufs.last_mut().unwrap(); if !b.is_empty() { let i = r.below(b.len()); b[i] = *r.pick(&[0x80u8, 0xC0, 0xFF, 0xE0, 0xF8, 0xED]); return "data_byte" } } "none" }
-        16 => { if let Ty::View { .. } = n.ty { if n.bufs[0].len() >= 16 { let slots = n.bufs[0].len() / 16; let i = r.below(slots);
+        16 => { if let Ty::View { .. } = n.ty { if !n.bufs.is_empty() && n.bufs[0].len() >= 16 { let slots = n.bufs[0].len() / 16; let i = r.below(slots);
                  match r.below(4) { 0 => { n.bufs[0][i * 16] = 13 } 1 => { n.bufs[0][i * 16 + 8] = n.bufs.len() as u8 } 2 => { n.bufs[0][i * 16 + 15] |= 0x40 } _ => { n.bufs[0][i * 16 + 4] ^= 0x55 } }
                  return "view_word" } } "none" }
-        17 => { if let Ty::Ree { rw, .. } = n.ty { let k = &mut n.kids[0]; if k.len > 0 { let i = r.below(k.len);
+        17 => { if let (Ty::Ree { rw, .. }, false) = (n.ty.clone(), n.kids.is_empty()) { let k = &mut n.kids[0]; if k.len > 0 && !k.bufs.is_empty() && k.bufs[0].len() >= k.len * rw { let i = r.below(k.len);
                  let v: i128 = match r.below(4) { 0 => 0, 1 => -3, 2 => 1, _ => 1000 }; put_le(&mut k.bufs[0], rw, i, v); return "run_end" } } "none" }
         18 => { if let Ty::Ree { .. } = n.ty { n.len += 1 + r.below(6); return "ree_len_beyond_runs" } "none" }
-        19 => { if let Ty::Union { .. } = n.ty { if !n.bufs[0].is_empty() { let i = r.below(n.bufs[0].len()); n.bufs[0][i] = *r.pick(&[1u8, 2, 200, 0x80]); return "type_id" } } "none" }
+        19 => { if let Ty::Union { .. } = n.ty { if !n.bufs.is_empty() && !n.bufs[0].is_empty() { let i = r.below(n.bufs[0].len()); n.bufs[0][i] = *r.pick(&[1u8, 2, 200, 0x80]); return "type_id" } } "none" }
         20 => { if let Ty::Union { dense: true, .. } = n.ty { if n.bufs.len() > 1 && n.bufs[1].len() >= 4 { let i = r.below(n.bufs[1].len() / 4); put_le(&mut n.bufs[1], 4, i, *r.pick(&[-1i128, 4, 5, 100])); return "dense_offset" } } "none" }
         _ => { if let Some(x) = &mut n.nulls { x.off += 1 + r.below(8); return "nulls_off" } "none" }
     }
